@@ -114,6 +114,31 @@ func (v *Verifier) specFunc(se *SpecEnv, name string, c *ast.CallExpr) (Value, b
 			out[i] = cw[perm[i]]
 		}
 		return &AggV{out}, true
+	case "ecD": // x2 - x1
+		t := vecArgs(se, c)
+		return F.Sub(t[2], t[0]), true
+	case "ecAddXNum", "ecAddYNum": // chord rule numerators over D^2 resp. D^3; args (x1,y1,x2,y2)
+		t := vecArgs(se, c)
+		x1, y1, x2, y2 := t[0], t[1], t[2], t[3]
+		D := F.Sub(x2, x1)
+		N := F.Sub(y2, y1)
+		D2 := F.Mul(D, D)
+		xn := F.Sub(F.Mul(N, N), F.Mul(F.Add(x1, x2), D2))
+		if name == "ecAddXNum" {
+			return xn, true
+		}
+		return F.Sub(F.Mul(N, F.Sub(F.Mul(x1, D2), xn)), F.Mul(y1, D2, D)), true
+	case "ecDblXNum", "ecDblYNum": // tangent rule numerators over (2y)^2 resp. (2y)^3; args (x,y,a)
+		t := vecArgs(se, c)
+		x, y, a := t[0], t[1], t[2]
+		M := F.Add(F.Mul(F.I64(3), x, x), a) // 3x^2 + a
+		E := F.Mul(F.I64(2), y)               // 2y
+		E2 := F.Mul(E, E)
+		xn := F.Sub(F.Mul(M, M), F.Mul(F.I64(2), x, E2))
+		if name == "ecDblXNum" {
+			return xn, true
+		}
+		return F.Sub(F.Mul(M, F.Sub(F.Mul(x, E2), xn)), F.Mul(y, E2, E)), true
 	case "svec":
 		kt := se.rvalue(se.eval(c.Args[0])).(*Term)
 		k := int(kt.K.Int64())
@@ -176,6 +201,22 @@ func specVec(se *SpecEnv, e ast.Expr) []*Term {
 		t, ok := se.rvalue(el).(*Term)
 		if !ok {
 			unsup("coordinate vector with non-scalar coordinate (is the coordinate type abstract in this layer?)")
+		}
+		out[i] = t
+	}
+	return out
+}
+
+func vecArgs(se *SpecEnv, c *ast.CallExpr) []*Term {
+	out := make([]*Term, len(c.Args))
+	for i, a := range c.Args {
+		v := se.rvalue(se.eval(a))
+		if p, ok := v.(*PtrV); ok {
+			v = se.rvalue(se.deref(p))
+		}
+		t, ok := v.(*Term)
+		if !ok {
+			unsup("scalar argument expected")
 		}
 		out[i] = t
 	}
